@@ -58,7 +58,9 @@ func c16Check(c *C16Case) string {
 	switch c.Family {
 	case "string":
 		doc := docOf(`"s":`+gen.JSONString(c.S), `"sep":`+gen.JSONString(c.Sep))
-		prog := `{ print json([$.s.length(), $.s.upper(), $.s.lower(), $.s.upper().upper(), $.s.lower().lower(), $.s.split($.sep), $.s]) }`
+		// (an earlier result of the same split is modified first: every call builds its own result)
+		prog := `{ p = $.s.split($.sep); p[0] = "Y" + p[0]; p.push("Z"); u = $.s.upper(); u = u + "!"
+print json([$.s.length(), $.s.upper(), $.s.lower(), $.s.upper().upper(), $.s.lower().lower(), $.s.split($.sep), $.s]) }`
 		_, vals, msg := runJSON(prog, doc)
 		if msg != "" {
 			return msg
@@ -490,7 +492,7 @@ func genC16Misuse(t *rapid.T) *DCase {
 
 func TestC16(t *testing.T) {
 	rec := start(t, "C16", "exploration",
-		"contract families with direct oracles: strings (ASCII, multi-byte, arbitrary valid UTF-8; separators empty, 1-3 bytes, equal to the string, substrings, overlapping like \"aaa\".split(\"aa\")): length = byte count, upper/lower = Unicode case mapping + an independent ASCII table + idempotence + receiver unchanged, split = no piece contains sep AND join == s AND equality with the greedy split (empty sep: the UTF-8 characters); numbers (halves of both signs, 0.49999999999999994, +-(2^52+0.5), >= 2^53, tiny, strata): floor/ceil/round checked with exact rational arithmetic (math/big), halves away from zero; pluck: objects x key lists with present, absent, repeated, numeric and method-named keys -> exact model, receiver unchanged, length = key count; num(s): numeric strings -> nearest double (exact rational oracle), non-numeric -> null, exotic not asserted; misuse: every method and builtin x receivers of every kind x 0-3 arguments of every kind -> value or RuntimeError (and equal to refjq where specified). Non-trivial per family: separator >= 2 times or at an end, multi-byte text; |x| with fraction .5 or >= 2^52; key list mixing present/absent or repeated; numeric string. distinct = distinct case.")
+		"contract families with direct oracles: strings (ASCII, multi-byte, arbitrary valid UTF-8; separators empty, 1-3 bytes, equal to the string, substrings, overlapping like \"aaa\".split(\"aa\")): length = byte count, upper/lower = Unicode case mapping + an independent ASCII table + idempotence + receiver unchanged, split = no piece contains sep AND join == s AND equality with the greedy split (empty sep: the UTF-8 characters), also right after an earlier result of the same call was modified; numbers (halves of both signs, 0.49999999999999994, +-(2^52+0.5), >= 2^53, tiny, strata): floor/ceil/round checked with exact rational arithmetic (math/big), halves away from zero; pluck: objects x key lists with present, absent, repeated, numeric and method-named keys -> exact model, receiver unchanged, length = key count; num(s): numeric strings -> nearest double (exact rational oracle), non-numeric -> null, exotic not asserted; misuse: every method and builtin x receivers of every kind x 0-3 arguments of every kind -> value or RuntimeError (and equal to refjq where specified). Non-trivial per family: separator >= 2 times or at an end, multi-byte text; |x| with fraction .5 or >= 2^52; key list mixing present/absent or repeated; numeric string. distinct = distinct case.")
 	defer rec.Finish()
 	rec.Assume("Go's unicode tables for non-ASCII case mapping; math/big for exact arithmetic; json() as the observation device (its own correctness is C04's subject)")
 	rec.Replayer("contract", func(raw json.RawMessage) error {
